@@ -200,6 +200,7 @@ PROPS = {
             {"name": "seq-value", "quick": 60000, "thorough": 6000000, "thorough_time": 150},
             {"name": "seq-coll", "quick": 100000, "thorough": 6000000, "thorough_time": 250},
             {"name": "seq-rich", "quick": 40000, "thorough": 3000000, "thorough_time": 100},
+            {"name": "seq-writable", "quick": 20000, "thorough": 500000, "thorough_time": 30},
         ],
         "require_hits": ["rng-colliding", "rng-exhausted", "clock-jump", "rng-short-read-error", "rng-zero"],
         "assumptions": ["messages are flat (four scalar fields of TestAllTypes)", "writable-field sets are nil or non-empty"],
